@@ -175,6 +175,7 @@ Definition entry (sel : Z) (toks : list Z) : list Z :=
   | 141 => law_entry_exc exc_stuck prune_stuck law_stuck_X toks       (* unsigned: any other stuck child *)
   | 142 => law_entry_exc exc_open prune_open law_openchild_X toks     (* unsigned: any other open child under a closed parent *)
   | 145 => law_entry_last law_no_idle_closing toks         (* unsigned: a queue left Closing with no PodGroup *)
+  | 146 => law_entry_last caught_up toks                   (* unsigned: the catch-up rounds really drained everything *)
   | 143 => law_entry_exc exc_stuck prune_stuck law_stuck_Y toks       (* signed: the known class *)
   | 144 => law_entry_exc exc_open prune_open law_openchild_Y toks     (* signed: the known class *)
   | _ => bad_input
